@@ -410,6 +410,7 @@ pub fn subjects(v: &mut Vec<Subject>) {
     subj_wd!(v, "transactions::ConfigureBakerKeysPayload", ConfigureBakerKeysPayload, g_baker_configure_keys);
     subj_wd!(v, "transactions::AddBakerPayload", AddBakerPayload, g_add_baker);
     subj_wd!(v, "Payload", Payload, g_payload);
+    v.last_mut().unwrap().crafted = Some(Box::new(crafted_payload));
     subj_wd!(v, "transactions::AccountTransaction<EncodedPayload>", AccountTransaction<EncodedPayload>, g_account_tx_encoded);
     subj_wd!(v, "transactions::AccountTransaction<Payload>", AccountTransaction<Payload>, g_account_tx);
     subj!(
@@ -423,4 +424,26 @@ pub fn subjects(v: &mut Vec<Subject>) {
     // NB: tag 3 is written by `Serial` but unknown to `Deserial`: listed in `ROUNDTRIP_DEFECT_SUBJECTS`.
     subj_wd!(v, "transactions::BlockItem<EncodedPayload>.AccountTransactionV1", BlockItem<EncodedPayload>, g_block_item_v1);
     let _ = cb::to_bytes::<u8>;
+}
+
+/// Raw transaction payloads: a tag, for the two bitmap-driven payloads (configure baker = 25,
+/// configure delegation = 26) a bitmap with few, high or arbitrary bits, then a few arbitrary bytes.
+/// Only totality and uniqueness of the encoding are required of them.
+fn crafted_payload(seed: u64) -> (Vec<u8>, Option<bool>) {
+    let mut rng = Rng::new(seed);
+    let tag = if rng.chance(2, 3) { 25 + rng.below(2) as u8 } else { rng.below(34) as u8 };
+    let mut b = vec![tag];
+    if tag == 25 || tag == 26 {
+        let bitmap: u16 = match rng.below(7) {
+            0 => 0,
+            1..=3 => 1 << rng.below(16),
+            4 => (1 << rng.below(16)) | (1 << rng.below(16)),
+            5 => (rng.next_u32() as u16) & 0xfe00,
+            _ => rng.next_u32() as u16,
+        };
+        b.extend_from_slice(&bitmap.to_be_bytes());
+    }
+    let n = rng.urange(0, 12);
+    b.extend(rng.bytes(n));
+    (b, None)
 }
